@@ -110,15 +110,15 @@ Section Script.
     - rewrite <- app_assoc. apply starts_first; assumption.
   Qed.
 
-  Lemma loop_script : forall more vals ts a pre seps trail tail s n expecting acc,
+  Lemma loop_script : forall blk more vals ts a pre seps trail tail s n expecting acc,
     Local ts a -> starts_stmt ts -> wf_script more vals ->
     all_semi_ok seps -> (expecting = true -> seps <> []) -> all_semi_ok trail ->
     toks s = pre ++ semis_toks seps ++ script_text ts more ++ semis_toks trail ++ tail ->
     first_tok tail = TEOF ->
     (length vals + 1 < n)%nat ->
-    fst (statements_loop n stmt expecting acc d (set_idx (length pre) s)) = Ok (rev acc ++ a :: vals).
+    fst (statements_loop blk n stmt expecting acc d (set_idx (length pre) s)) = Ok (rev acc ++ a :: vals).
   Proof.
-    induction more as [|[seps' ts'] m IH];
+    intro blk. induction more as [|[seps' ts'] m IH];
       intros vals ts a pre seps trail tail s n expecting acc Hloc Hst Hwf Hseps Hexp Htrail Ht Heof Hn.
     - (* last statement *)
       destruct vals; [|contradiction]. cbn [script_text] in Ht.
@@ -137,7 +137,7 @@ Section Script.
           match goal with |- (if ?c then _ else _) = _ => destruct c end; reflexivity.
         - fold (first_tok (semis_toks (m0 :: seps0) ++ ts ++ semis_toks trail ++ tail)).
           rewrite first_tok_semis by (auto; discriminate). reflexivity. }
-      rewrite Hexp'. cbn [andb]. unfold bind at 1.
+      rewrite Hexp', Bool.andb_false_r. cbn [andb]. unfold bind at 1.
       assert (Hend : stmt_end (first_tok (semis_toks trail ++ tail)) = true).
       { unfold stmt_end. destruct trail as [|m0 t0].
         - cbn [semis_toks app]. rewrite Heof. reflexivity.
@@ -177,7 +177,7 @@ Section Script.
           match goal with |- (if ?c then _ else _) = _ => destruct c end; reflexivity.
         - fold (first_tok (semis_toks (m0 :: seps0) ++ (ts ++ semis_toks seps' ++ script_text ts' m) ++ semis_toks trail ++ tail)).
           rewrite first_tok_semis by (auto; discriminate). reflexivity. }
-      rewrite Hexp'. cbn [andb]. unfold bind at 1.
+      rewrite Hexp', Bool.andb_false_r. cbn [andb]. unfold bind at 1.
       assert (Hend : stmt_end (first_tok (semis_toks seps' ++ script_text ts' m ++ semis_toks trail ++ tail)) = true).
       { unfold stmt_end. rewrite first_tok_semis by auto. reflexivity. }
       rewrite (Hloc _ _ s Ht1 Hend).
@@ -202,20 +202,21 @@ Section Script.
     intros more vals ts a lead trail tail s fuel Hl Hs Hwf Hlead Htrail Ht Heof Hi Hn.
     unfold parse_statements.
     replace s with (set_idx (length (@nil twl)) s) at 1 by (destruct s; cbn in *; subst; reflexivity).
-    rewrite (loop_script more vals ts a [] lead trail tail s fuel false [] Hl Hs Hwf Hlead); auto.
+    rewrite (loop_script false more vals ts a [] lead trail tail s fuel false [] Hl Hs Hwf Hlead); auto.
     discriminate.
   Qed.
 
-  (** Negative half: after a statement, anything but [;], EOF (or END) is "end of statement". *)
+  (** Negative half: after a statement, anything but [;] or EOF is "end of statement" -- END
+      included: only the body of a BEGIN .. END block ([parse_statement_block]) stops there. *)
   Theorem C11_needs_separator : forall ts a rest s fuel,
     Local ts a -> starts_stmt ts ->
     toks s = ts ++ rest -> idx s = 0%nat ->
-    stmt_end (first_tok rest) = false -> is_kw (s2l "END") (peek_from rest 0) = false ->
+    stmt_end (first_tok rest) = false ->
     (1 < fuel)%nat ->
     (forall pre r s', toks s' = pre ++ ts ++ r -> stmt d (set_idx (length pre) s') = (Ok a, set_idx (length pre + length ts) s')) ->
     fst (parse_statements fuel stmt d s) = Err (Syntax (expected_msg (s2l "end of statement") (peek_from rest 0))).
   Proof.
-    intros ts a rest s fuel Hl Hs Ht Hi Hne Hend Hn Hany.
+    intros ts a rest s fuel Hl Hs Ht Hi Hne Hn Hany.
     unfold parse_statements. destruct fuel as [|n]; [lia|]. destruct n as [|n]; [lia|].
     replace s with (set_idx (length (@nil twl)) s) at 1 by (destruct s; cbn in *; subst; reflexivity).
     assert (Ht0 : toks s = [] ++ semis_toks [] ++ ts ++ rest) by (cbn; exact Ht).
@@ -238,7 +239,43 @@ Section Script.
     fold (first_tok rest). rewrite Hn1.
     assert (Hnf2 : first_tok rest <> TEOF).
     { intro E. rewrite E in Hn2. discriminate. }
-    rewrite (match_not_eof _ _ _ Hnf2). rewrite Hend. cbn [andb]. reflexivity.
+    rewrite (match_not_eof _ _ _ Hnf2). cbn [andb]. reflexivity.
+  Qed.
+  (** The body of a BEGIN .. END block: after a statement the list ends in front of END, which
+      is left for the caller ([parse_create_procedure] expects it next). *)
+  Theorem block_stops_at_end : forall ts a rest s fuel,
+    Local ts a -> starts_stmt ts ->
+    toks s = ts ++ rest -> idx s = 0%nat ->
+    is_kw (s2l "END") (peek_from rest 0) = true ->
+    (1 < fuel)%nat ->
+    (forall pre r s', toks s' = pre ++ ts ++ r -> stmt d (set_idx (length pre) s') = (Ok a, set_idx (length pre + length ts) s')) ->
+    fst (parse_statement_block fuel stmt d s) = Ok [a].
+  Proof.
+    intros ts a rest s fuel Hl Hs Ht Hi Hend Hn Hany.
+    assert (Hw : exists w q k, tok (peek_from rest 0) = TWord w q k).
+    { unfold is_kw in Hend. destruct (tok (peek_from rest 0)); try discriminate. eauto. }
+    destruct Hw as (w & q & k & Hw).
+    assert (Hn1 : token_eqb (first_tok rest) (TP PSemi) = false) by (unfold first_tok; rewrite Hw; reflexivity).
+    assert (Hnf2 : first_tok rest <> TEOF) by (unfold first_tok; rewrite Hw; discriminate).
+    unfold parse_statement_block. destruct fuel as [|n]; [lia|]. destruct n as [|n]; [lia|].
+    replace s with (set_idx (length (@nil twl)) s) at 1 by (destruct s; cbn in *; subst; reflexivity).
+    assert (Ht0 : toks s = [] ++ semis_toks [] ++ ts ++ rest) by (cbn; exact Ht).
+    destruct (starts_first ts rest Hs) as [Hns Hnf].
+    cbn [statements_loop]. unfold bind at 1. rewrite (peek_at d s [] _ Ht0). unfold bind at 1.
+    rewrite (skip_all_semis_run d s [] [] _ I Ht0 Hns). unfold bind at 1.
+    change (length (@nil twl) + length (semis_toks []))%nat with (length (@nil twl)).
+    rewrite (peek_at d s [] _ Ht0). cbn [semis_toks app].
+    fold (first_tok (ts ++ rest)). rewrite (match_not_eof _ _ _ Hnf).
+    rewrite Hns. cbn [andb]. unfold bind at 1.
+    rewrite (Hany [] rest s Ht).
+    change (length (@nil twl) + length ts)%nat with (length ts). unfold bind at 1.
+    assert (Ht1 : toks s = ts ++ rest) by exact Ht.
+    rewrite (peek_at d s ts _ Ht1). unfold bind at 1.
+    assert (Ht2 : toks s = ts ++ semis_toks [] ++ rest) by exact Ht.
+    rewrite (skip_all_semis_run d s [] ts _ I Ht2 Hn1). unfold bind at 1.
+    cbn [semis_toks length]. rewrite Nat.add_0_r. rewrite (peek_at d s ts _ Ht1).
+    fold (first_tok rest). rewrite Hn1.
+    rewrite (match_not_eof _ _ _ Hnf2). rewrite Hend. cbn [andb ret fst rev app]. reflexivity.
   Qed.
 End Script.
 
